@@ -34,6 +34,8 @@ def extras(seed):
         for a in range(3 ** min(nt, 3)):       # string form: every combination on the first three terms
             strs = [names[(a // 3 ** k) % 3] for k in range(nt)]
             ms.append(dict(mask=[STR[s] for s in strs], form="str", strs=strs, src="str"))
+            if a % 2:
+                ms.append(dict(mask=[STR[s] for s in strs], form="str", strs=strs, src="str_pos", pos=True))     # positional arguments, documented order
         ms.append(dict(mask=[[True, False, False]] * nt, form="default", src="default"))
         # string form with only ONE term given: every omitted term defaults to the network parameters
         for j in range(nt):
